@@ -33,7 +33,7 @@ def _fresh(call: ast.Call) -> bool:
                                                                                                                                       "symmetric_difference", "keys", "values", "items"))
 
 
-def _returns_mutable(fn: ast.FunctionDef) -> Optional[ast.AST]:
+def _returns_mutable(fn: ast.FunctionDef, repo=None, mod=None, depth: int = 0) -> Optional[ast.AST]:
     pv = Provenance(fn)
     for r in walk_no_nested(fn):
         if isinstance(r, ast.Return) and r.value is not None:
@@ -42,6 +42,11 @@ def _returns_mutable(fn: ast.FunctionDef) -> Optional[ast.AST]:
                     return node
                 if kind == "call" and (dotted(node.func) or "") in MUTABLE_CTORS:
                     return node
+                if kind == "call" and repo is not None and depth < 3:
+                    # the result of another function of the repository that builds a mutable structure
+                    rr = repo.resolve_call(mod, node)
+                    if rr and isinstance(rr[2], ast.FunctionDef) and _returns_mutable(rr[2], repo, rr[0], depth + 1) is not None:
+                        return node
     return None
 
 
@@ -53,7 +58,7 @@ class CachedMutables:
             m = repo.module(mn)
             for q, f in m.defs.items():
                 if isinstance(f, ast.FunctionDef) and is_memoised(f):
-                    node = _returns_mutable(f)
+                    node = _returns_mutable(f, repo, m)
                     if node is not None:
                         self.sources[id(f)] = (m, q, f, node)
         self.tainted: Dict[int, Tuple[object, str, ast.FunctionDef, str]] = {k: (v[0], v[1], v[2], v[1]) for k, v in self.sources.items()}
@@ -103,6 +108,47 @@ class CachedMutables:
                             self.tainted[id(f)] = (m, q, f, s)
                             changed = True
                             break
+
+    def arg_sinks(self, effects) -> List[tuple]:
+        """(module, function qualname, call node, source name, callee) where a value that may be a memoised result is handed (itself, or inside a list/tuple/dict
+        literal built at the call) to a resolved function that may mutate the corresponding parameter"""
+        out = []
+        for m, q, f in self._funcs:
+            if not any(self._tainted_call(m, x) for x in calls_in(f)):
+                continue
+            pv = self.pv(f)
+            for call in calls_in(f):
+                r = self.repo.resolve_call(m, call)
+                if not r or not isinstance(r[2], ast.FunctionDef) or id(r[2]) in self.tainted:
+                    continue
+                mut = effects.mutated_params(r[0], r[1], r[2])
+                if not mut:
+                    continue
+                pn = [a.arg for a in r[2].args.args]
+                if pn and pn[0] in ("self", "cls") and (isinstance(call.func, ast.Attribute) or r[1].endswith(".__init__")):
+                    pn = pn[1:]
+                bound = {}
+                for i, a in enumerate(call.args):
+                    if i < len(pn):
+                        bound[pn[i]] = a
+                for k in call.keywords:
+                    if k.arg:
+                        bound[k.arg] = k.value
+                for p, a in bound.items():
+                    if p not in mut:
+                        continue
+                    parts = [a] + ([e for e in a.elts] if isinstance(a, (ast.List, ast.Tuple, ast.Set)) else []) + ([v for v in a.values] if isinstance(a, ast.Dict) else [])
+                    for part in parts:
+                        hit = None
+                        for kind, node in pv.aliases(part, contents=False, is_fresh=_fresh, call_summary=lambda c_: []):
+                            if kind == "call":
+                                hit = self._tainted_call(m, node)
+                                if hit:
+                                    break
+                        if hit:
+                            out.append((m, q, call, hit, r[1], mut[p]))
+                            break
+        return out
 
     def sinks(self) -> List[Tuple[object, str, ast.AST, str]]:
         """(module, function qualname, mutation node, source name)"""
